@@ -159,8 +159,19 @@ class Materialised:
         saved = [(c, copy.deepcopy(c.__dict__.get("__gengy__"))) for c in allc]
         try:
             g2 = extract_grammar(sub, start, exp)
-            g2.get_min_tree_depth()
+            d2 = g2.get_min_tree_depth()
             g2.usable_grammar()
+            if d2 < 1000:
+                # ... and used: a few programs are created, mutated and crossed over with it
+                from geneticengine.random.sources import NativeRandomSource
+                from geneticengine.representations.tree.initializations import MaxDepthDecider
+                from geneticengine.representations.tree.treebased import TreeBasedRepresentation
+
+                r2 = NativeRandomSource(k)
+                rep2 = TreeBasedRepresentation(g2, MaxDepthDecider(r2, g2, d2 + 2))
+                ps = [rep2.create_genotype(r2) for _ in range(3)]
+                ps.append(rep2.mutate(r2, ps[0]))
+                ps.extend(rep2.crossover(r2, ps[1], ps[2]))
         except Exception:  # noqa: BLE001
             pass
         finally:
